@@ -23,7 +23,7 @@ from engine.shape import key, args, pkey, origin, for_loop, full_component_loop,
 UNITS = [src('base', 'src', 'StateSpace.cpp'), src('base', 'src', 'StateStorage.cpp'),
          src('base', 'src', 'PlannerDataStorage.cpp'), src('control', 'src', 'PlannerDataStorage.cpp'),
          src('base', 'src', 'PlannerData.cpp'), src('base', 'spaces', 'src', 'WrapperStateSpace.cpp'),
-         os.path.join(facts.INST, 'storage.cpp')]
+         os.path.join(facts.INST, 'storage.cpp'), os.path.join(facts.INST, 'scoped.cpp')]
 
 
 def nofp(s):
@@ -644,6 +644,114 @@ def r09i(rep, F):
     rep.require_count('R09i', 'catch handlers on load paths', n, 3)
 
 
+def r09k(rep, F):
+    rep.rule('R09k', 'ScopedState converts to and from its vector of reals through ONE mechanism: reals(), operator=(const std::vector<double>&), '
+                     'operator=(double) and operator[] all walk the live value addresses (getValueAddressAtIndex), or all go through the '
+                     'value-location table (copyToReals / copyFromReals).  The table is filled by setup() and not refreshed when the space is '
+                     'changed afterwards, so a reader and a writer on different mechanisms disagree for a space that was never set up (the '
+                     'result of state1 ^ state2) or that grew after setup(): the round trip state -> reals -> state no longer reproduces the state')
+    mech = {}
+    for f in F.functions:
+        if not (f.record or '').startswith('ompl::base::ScopedState') or not f.body:
+            continue
+        short = f.name.split('::')[-1]
+        role = None
+        if short == 'reals':
+            role = 'reals()'
+        elif short == 'operator=' and ('vector<double>' in f.sig or 'const double' in f.sig or f.sig.startswith('ScopedState<T> &(double)') or '(double)' in f.sig):
+            role = 'operator=(%s)' % ('vector' if 'vector' in f.sig else 'double')
+        elif short == 'operator[]' and 'unsigned int' in f.sig:
+            role = 'operator[](index)' + (' const' if f.d.get('const') else '')
+        if role is None:
+            continue
+        m = set()
+        for c in f.walk():
+            cal = (c.get('callee') or '').split('::')[-1]
+            if cal == 'getValueAddressAtIndex':
+                m.add('live')
+            elif cal in ('copyToReals', 'copyFromReals', 'getValueLocations', 'getValueAddressAtLocation'):
+                m.add('table')
+        mech[role] = (m, f)
+    if len(mech) < 4 or 'reals()' not in mech or 'operator=(vector)' not in mech:
+        raise AnalysisBroken('R09k: ScopedState accessors not found (%s)' % sorted(mech))
+    ref = mech['operator=(vector)'][0]
+    for role, (m, f) in sorted(mech.items()):
+        ok = m == ref and len(m) == 1
+        rep.add('R09k', 'ompl::base::ScopedState', 'one-mechanism:' + role, ok, f.loc,
+                'walks the %s values like operator=(vector)' % '/'.join(sorted(m)) if ok else
+                '%s reads/writes the values through %s while operator=(const std::vector<double>&) uses %s' %
+                (role, '/'.join(sorted(m)) or 'neither mechanism', '/'.join(sorted(ref))))
+
+
+def r09l(rep, F):
+    rep.rule('R09l', 'PlannerData::extractStateStorage keeps its two index domains apart: indexMap maps a planner-data vertex index to the slot '
+                     'the vertex state got in the storage; in the loop over indexMap the edges are fetched for the VERTEX index (getEdges(it.first)), '
+                     'the metadata row is the one of the SLOT (getMetadata(it.second)) and every stored neighbour is translated to a slot '
+                     '(indexMap[edgeList[k]]).  Slots follow the address order of the states, not the vertex order, so a row attached by vertex '
+                     'index gives the adjacency list of one vertex to the state of another')
+    fn = F.one('ompl::base::PlannerData::extractStateStorage')
+    loops = [x for x in fn.walk() if x['k'] == 'CXXForRangeStmt' and 'indexMap' in nofp(fn.fp(x['range']))]
+    if len(loops) != 1:
+        raise AnalysisBroken('R09l: the loop over indexMap in extractStateStorage was not found')
+    lp = loops[0]
+    vd = fn.nodes[lp['var']]['decls'][0]
+    it = '%s#%d' % (vd['name'], vd['did'])
+    ge = [c for c in fn.walk(lp['body']) if (c.get('callee') or '').endswith('PlannerData::getEdges')]
+    gm = [c for c in fn.walk(lp['body']) if (c.get('callee') or '').endswith('::getMetadata')]
+    if not ge or not gm:
+        raise AnalysisBroken('R09l: getEdges / getMetadata calls not found')
+    a = fn.fp(args(fn, ge[0])[0])
+    ok = a == it + '.first'
+    rep.add('R09l', fn.name, 'edges-of-vertex-index', ok, fn.where(ge[0]), 'getEdges(it.first)' if ok else
+            'the edges are fetched for %s, which is not the vertex index it.first' % nofp(a))
+    a = fn.fp(args(fn, gm[0])[0])
+    ok = a == it + '.second'
+    rep.add('R09l', fn.name, 'metadata-of-slot', ok, fn.where(gm[0]), 'getMetadata(it.second)' if ok else
+            'the metadata row is selected by %s, not by the storage slot it.second of the vertex' % nofp(a))
+    st = [x for x in fn.walk(lp['body']) if (x['k'] == 'BinaryOperator' and x.get('op') == '=' or x['k'] == 'CXXOperatorCallExpr' and x.get('oop') == '=')
+          and 'md' in nofp(fn.fp(x['ch'][0])) and 'operator[]' in fn.fp(x['ch'][0])]
+    ok = bool(st) and all(re.search(r'operator\[\]\(indexMap#\d+,.*edgeList', fn.fp(x['ch'][-1])) for x in st)
+    rep.add('R09l', fn.name, 'neighbours-translated-to-slots', ok, fn.where(st[0]) if st else fn.loc,
+            'md[k] = indexMap[edgeList[k]]' if ok else 'a stored neighbour is not translated from vertex index to storage slot through indexMap')
+
+
+CLEAR_EXCEPTIONS = {}
+
+
+def r09m(rep, F):
+    rep.rule('R09m', 'PlannerData::clear() forgets the whole graph: every data member that a mutator of PlannerData (addVertex, addStartVertex, '
+                     'markStartState, removeVertex, decoupleFromPlanner, ...) writes is also written by the clear() closure (clear + '
+                     'freeMemory).  PlannerDataStorage::load() begins with pd.clear(): a member that survives it -- the state-to-index map, the '
+                     'start / goal index lists -- makes the loaded graph differ from the stored one (extra start / goal marks, states '
+                     'resolved to indices of the previous graph)')
+    from rules import c03
+    rec = 'ompl::base::PlannerData'
+    byrec = {}
+    for f in F.functions:
+        if f.body:
+            byrec.setdefault(f.record, []).append(f)
+    fs = byrec.get(rec, [])
+    if not fs:
+        raise AnalysisBroken('R09m: PlannerData vanished')
+    anc = c03._ancestors(F, rec)
+    others = [g for g in fs if g.d.get('kind') not in ('ctor', 'dtor') and g.name.split('::')[-1] not in ('clear', 'freeMemory')]
+    W = c03._field_writes(others)
+    C = c03._field_writes(c03._class_closure(F, byrec, rec, anc, 'clear'))
+    n = 0
+    for fld, ws in sorted(W.items()):
+        role = 'cleared:' + fld
+        if (rec, fld) in CLEAR_EXCEPTIONS:
+            rep.undecided('R09m', rec + '::clear', role, CLEAR_EXCEPTIONS[(rec, fld)])
+            continue
+        n += 1
+        ok = fld in C
+        rep.add('R09m', rec + '::clear', role, ok, (C[fld][0][3].where(C[fld][0][2]) if ok else ws[0][3].where(ws[0][2])),
+                'reset by %s()' % C[fld][0][1] if ok else
+                '%s is modified by %s() but clear() does not touch it: a PlannerData that is cleared (as load() does first) and filled again '
+                'still holds what the previous graph put there' % (fld, ws[0][1]))
+    rep.require_count('R09m', 'PlannerData members written by mutators', n, 4)
+
+
 def run(rep):
     F = facts.load_units(UNITS)
     rep.units.update(UNITS)
@@ -658,3 +766,6 @@ def run(rep):
     r09h(rep, F)
     r09i(rep, F)
     r09j(rep, F)
+    r09k(rep, F)
+    r09l(rep, F)
+    r09m(rep, F)
